@@ -281,15 +281,15 @@ pub(crate) mod kani_verif {
     protocol_harness!(c04_core_toomany, false, 20);
     // @h name=c04_hss_sign_l1 props=C04,C09 tier=thorough kind=proved cfg=L2w8 timeout=1500 kani_args="--no-memory-safety-checks --no-undefined-function-checks" funcs=hss_sign contract="same protocol through the public byte-level entry point hss_sign, 1 level"
     protocol_harness!(c04_hss_sign_l1, true, 1);
-    // @h name=c04_w8_l1 props=C04,C11,C05,C03 tier=thorough kind=proved cfg=w8 timeout=3000 kani_args="--no-memory-safety-checks --no-undefined-function-checks" funcs=hss_sign_core contract="default capacity (8 levels): valid 1-level lists"
+    // @h name=c04_w8_l1 props=C04,C11,C05,C03 tier=extended kind=proved cfg=w8 timeout=3000 kani_args="--no-memory-safety-checks --no-undefined-function-checks" funcs=hss_sign_core contract="default capacity (8 levels): valid 1-level lists"
     protocol_harness!(c04_w8_l1, false, 1);
     // @h name=c04_w8_l3 props=C04,C11,C05,C03 tier=extended kind=proved cfg=w8 timeout=3000 kani_args="--no-memory-safety-checks --no-undefined-function-checks" funcs=hss_sign_core contract="default capacity: valid 3-level lists"
     protocol_harness!(c04_w8_l3, false, 3);
     // @h name=c04_w8_l8 props=C04,C11,C05,C03 tier=extended kind=proved cfg=w8 timeout=3000 kani_args="--no-memory-safety-checks --no-undefined-function-checks" funcs=hss_sign_core contract="default capacity: valid 8-level lists"
     protocol_harness!(c04_w8_l8, false, 8);
-    // @h name=c04_w8_bad4 props=C04,C11 tier=thorough kind=proved cfg=w8 timeout=3000 kani_args="--no-memory-safety-checks --no-undefined-function-checks" funcs=hss_sign_core contract="default capacity: invalid parameter byte at position 4"
+    // @h name=c04_w8_bad4 props=C04,C11 tier=extended kind=proved cfg=w8 timeout=3000 kani_args="--no-memory-safety-checks --no-undefined-function-checks" funcs=hss_sign_core contract="default capacity: invalid parameter byte at position 4"
     protocol_harness!(c04_w8_bad4, false, 14);
-    // @h name=c04_w8_bad7 props=C04,C11 tier=thorough kind=proved cfg=w8 timeout=3000 kani_args="--no-memory-safety-checks --no-undefined-function-checks" funcs=hss_sign_core contract="default capacity: invalid parameter byte at position 7"
+    // @h name=c04_w8_bad7 props=C04,C11 tier=extended kind=proved cfg=w8 timeout=3000 kani_args="--no-memory-safety-checks --no-undefined-function-checks" funcs=hss_sign_core contract="default capacity: invalid parameter byte at position 7"
     protocol_harness!(c04_w8_bad7, false, 17);
 
     // ------------------------------------------------------------------ C11/C04: key blobs of the wrong length
